@@ -176,3 +176,58 @@ def unique_names_init(ctx):
         ctx.oblige(f"post-vocabulary#{n}", s, z3.ForAll([p], z3.Select(known, p) == z3.Or(declared, occurs)))
         ctx.oblige(f"post-counter#{n}", s, ex.to_term(s, o.get("auxcounter"), "int") == 0, kind="frame")
     ctx.inputs.clear()
+
+
+@unit("C07.domain_predicate_names", "C07", "ngo.dependency:DomainPredicates._predicate", fallback="domain_predicate_names")
+def domain_predicate_names(ctx):
+    """the memoised name factory behind __dom_/__min_/__max_/__next_/__chain predicates: two requests (n1,a1), (n2,a2) in
+    a row both return predicates that were not known before, with the requested arities; equal requests give the same
+    predicate, different requests give different predicates (so generated names never clash with the source, the
+    declarations or each other, also when the same base name is requested with two arities)"""
+    ex, m = ctx.ex, ctx.m
+    st = ctx.state()
+    preds = ctx.sym("predicates", SP)
+    n1, n2 = ctx.sym("name1", "str"), ctx.sym("name2", "str")
+    a1, a2 = ctx.sym("arity1", "int"), ctx.sym("arity2", "int")
+    un = ctx.new_object(st, "UniqueNames", auxcounter=0, predicates=st.alloc(SetObj(sv=preds)))
+    for nm in ("__compute_nonstatic_predicates", "__compute_domains"):
+        ex.overrides[f"ngo.dependency:DomainPredicates.{nm}"] = lambda e, s, a, k: [(s, None)]
+
+    def new_predicate(e, s, a, k):
+        """contract of UniqueNames.new_predicate (proved in C07.new_predicate)"""
+        me_, similar, arity = a
+        o = s.heap[me_.id]
+        cur = e.to_term(s, o.get("predicates"), SP)
+        p = e.fresh(s, "newpred", PRED)
+        s.assume(z3.Not(z3.Select(cur, p.term)), m.rec_acc("Predicate", "arity")(p.term) == e.to_term(s, arity, "int"))
+        s.heap[o.get("predicates").id] = SetObj(sv=SV(z3.Store(cur, p.term, True), SP))
+        return [(s, p)]
+
+    ex.overrides["ngo.utils.globals:UniqueNames.new_predicate"] = new_predicate
+    from pyvc.values import ClassVal
+
+    made = ex.B.instantiate(st, None, ClassVal("ngo.dependency", "DomainPredicates"), [un, st.alloc(ListObj(items=()))], {})
+    ok0, bad0 = returned(made)
+    no_raise(ctx, "construct-no-raise", made)
+    ctx.cover("reach", st)
+    arity_of = m.rec_acc("Predicate", "arity")
+    n = 0
+    for s0, dp in ok0:
+        f = ctx.method("ngo.dependency", "DomainPredicates", "_predicate", dp)
+        for s1, r1 in ctx.call(s0, f, [n1, a1]):
+            from pyvc.exec import Raised as _R
+
+            if isinstance(r1, _R):
+                ctx.oblige(f"no-raise-1#{n}", s1, z3.BoolVal(False), kind="assert")
+                continue
+            for s2, r2 in ctx.call(s1, f, [n2, a2]):
+                n += 1
+                if isinstance(r2, _R):
+                    ctx.oblige(f"no-raise-2#{n}", s2, z3.BoolVal(False), kind="assert")
+                    continue
+                same_req = z3.And(n1.term == n2.term, a1.term == a2.term)
+                ctx.oblige(f"post-fresh#{n}", s2, z3.And(z3.Not(z3.Select(preds.term, r1.term)), z3.Not(z3.Select(preds.term, r2.term))), replay={"mirror": "domain_predicate_names"})
+                ctx.oblige(f"post-arity#{n}", s2, z3.And(arity_of(r1.term) == a1.term, arity_of(r2.term) == a2.term), replay={"mirror": "domain_predicate_names"})
+                ctx.oblige(f"post-memo#{n}", s2, z3.Implies(same_req, r1.term == r2.term), replay={"mirror": "domain_predicate_names"})
+                ctx.oblige(f"post-distinct#{n}", s2, z3.Implies(z3.Not(same_req), r1.term != r2.term), replay={"mirror": "domain_predicate_names"})
+    ctx.assume_note("functools.cache on DomainPredicates._predicate is modelled as a ghost map with the lifetime of one call history (its process-wide lifetime is not modelled: C17)")
